@@ -216,6 +216,15 @@ def _z2_site(prog, rep, f, fr, var, is_param, n):
                     return ("dirty", ts)
                 return ("dirty", None)
             return (ts, None) if saved is not None and cal is not None else st
+        if e.cls == "DeclStmt":
+            # `T * x = init;`: a local that starts as another name for an existing object starts dirty
+            for d in e.decls:
+                if isinstance(d, dict) and (d.get("name"), d.get("id")) == var and d.get("init"):
+                    r = f.elem(d["init"]).strip()
+                    if r is not None and r.cls == "CallExpr" and r.callee in ("malloc", "calloc", "crypto_aesctr_alloc"):
+                        return ("clean", None)
+                    return ("dirty", None)
+            return st
         if e.is_assign:
             t = e.kid(0)
             if t.cls == "DeclRefExpr" and (t.decl["name"], t.decl["id"]) == var:
